@@ -271,6 +271,10 @@ func (tt *TermTable) Ite(c, a, b *Term) *Term {
 	if a == b {
 		return a
 	}
+	if c.op == "not" {
+		// canonical form: the condition of an ite is never a negation
+		return tt.Ite(c.args[0], b, a)
+	}
 	if a.sort.K == SBool && a.isConst && b.isConst {
 		if a.u == 1 && b.u == 0 {
 			return c
